@@ -144,3 +144,35 @@ Theorem default_length_keeps_a_bin :
    exists k : Z, lo < IZR k * rate / Dr < hi)%R.
 Proof. exact bin_inside_support_l. Qed.
 Print Assumptions default_length_keeps_a_bin.
+
+(* ---- tie to the source: compute_full's bookkeeping and one step of the walk are the
+   expressions gen/stft.py extracts from compute.py / torch.py on this run ---- *)
+From Verif Require Import Stft.Tie gen.StftK.
+Theorem stft_model_is_source_compute_full :
+  forall (A : Type) (c : cfg) (x : list A), full_frames_src c x = full_frames c x.
+Proof. exact @full_frames_tie. Qed.
+Print Assumptions stft_model_is_source_compute_full.
+Theorem walk_model_is_source_mirrored_step :
+  forall D ln start consumed : Z,
+  let half := D / 2 + 1 in
+  g_frame_seg_len_1 (g_frame_seg_len_0 start ln consumed half D)
+    = Z.max 0 (Z.min (start + ln - consumed) (half - 2 + D mod 2) - start) /\
+  g_frame_start_idx_2 (g_frame_start_idx_0 start half D) = Z.max 0 (start - (half - 2 + D mod 2)) /\
+  g_torch_seg_len_0 start ln consumed half (g_torch_mod_0 D)
+    = Z.max 0 (Z.min (start + ln - consumed) (half - 2 + D mod 2) - start) /\
+  g_torch_si_2 (g_torch_si_0 start half (g_torch_mod_0 D)) = Z.max 0 (start - (half - 2 + D mod 2)) /\
+  g_torch_hi_0 half (g_torch_mod_0 D) start - 1 = half - 2 + D mod 2 - start.
+Proof. exact walk_conj_step_tie. Qed.
+Print Assumptions walk_model_is_source_mirrored_step.
+Theorem walk_model_is_source_direct_step :
+  forall D ln start consumed : Z,
+  let half := D / 2 + 1 in
+  g_frame_seg_len_4 (g_frame_seg_len_3 (g_frame_seg_len_2 start ln consumed half) start)
+    = Z.max 0 (Z.min (start + ln - consumed) half - start) /\
+  g_frame_start_idx_2 (g_frame_start_idx_1 start half) = Z.max 0 (start - half) /\
+  g_torch_seg_len_1 start ln consumed half = Z.max 0 (Z.min (start + ln - consumed) half - start) /\
+  g_torch_si_2 (g_torch_si_1 start half) = Z.max 0 (start - half) /\
+  g_frame_consumed_1 consumed 3 = consumed + 3 /\ g_torch_consumed_0 consumed 3 = consumed + 3 /\
+  g_frame_test_0 consumed ln = (consumed <? ln) /\ g_torch_test_3 consumed ln = (consumed <? ln).
+Proof. exact walk_direct_step_tie. Qed.
+Print Assumptions walk_model_is_source_direct_step.
